@@ -303,16 +303,37 @@ func c13do(b *node.Browser, kind, a, bb string, vals map[string]interface{}) (re
 		if err != nil {
 			return "error"
 		}
-		n, err := nodeutil.ReadJSON(bb)
+		var n node.Node
+		doc, findPath := bb, ""
+		if k := strings.Index(bb, " ||| "); k >= 0 {
+			doc, findPath = bb[:k], bb[k+5:]
+		}
+		n, err = nodeutil.ReadJSON(doc)
 		if err != nil {
 			return "error"
 		}
-		root := node.NewBrowser(m, &nodeutil.Node{Object: map[string]interface{}{}}).Root()
-		if err := root.UpsertFrom(n); err != nil {
-			return "error"
+		for _, backend := range []string{"node", "reflect"} {
+			var store node.Node = &nodeutil.Node{Object: map[string]interface{}{}}
+			if backend == "reflect" {
+				store = nodeutil.ReflectChild(map[string]interface{}{})
+				if n, err = nodeutil.ReadJSON(doc); err != nil {
+					return "error"
+				}
+			}
+			root := node.NewBrowser(m, store).Root()
+			if err := root.UpsertFrom(n); err != nil {
+				continue
+			}
+			if _, err = nodeutil.WriteJSON(root); err != nil {
+				continue
+			}
+			if findPath != "" {
+				if sel, ferr := root.Find(findPath); ferr == nil && sel != nil {
+					nodeutil.WriteJSON(sel)
+				}
+			}
 		}
-		_, err = nodeutil.WriteJSON(root)
-		return outcome(err)
+		return "ok"
 	case "sfind":
 		// a struct-backed store (nodeutil.Reflect over Go structs) whose list holds an entry with an empty key field
 		if c13seMod == nil {
@@ -702,6 +723,21 @@ func C13(c *core.Ctx) {
 			{`grouping g { leaf x { type string; } choice ch { leaf y { type string; } choice inner { uses g; } } } container top { uses g; }`, `{"top":{"x":"v"}}`},
 		} {
 			reqs = append(reqs, c13req{Kind: "modupsert", A: "module r { namespace \"urn:r\"; prefix r; revision 2020-01-01; " + sch[0] + " }", B: sch[1], Desc: "upsert under a schema with a recursive grouping"})
+		}
+		// lists the library has to create in an empty map: without a key, nested in themselves
+		for _, sch := range [][2]string{
+			{`container top { list nk { leaf v { type string; } } }`, `{"top":{"nk":[{"v":"a"},{"v":"b"}]}}`},
+			{`list nk { leaf v { type string; } container c { leaf x { type int32; } } }`, `{"nk":[{"v":"a","c":{"x":1}},{}]}`},
+			{`grouping g { list node { key n; leaf n { type string; } uses g; } } container rec { uses g; }`, `{"rec":{"node":[{"n":"a","node":[{"n":"b","node":[{"n":"c"}]}]}]}} ||| rec/node=a/node=b/node=c`},
+		} {
+			reqs = append(reqs, c13req{Kind: "modupsert", A: "module r { namespace \"urn:r\"; prefix r; revision 2020-01-01; " + sch[0] + " }", B: sch[1], Desc: "upsert of a keyless or self-nested list into an empty map"})
+		}
+		// selections that are not data nodes: an action, a notification; the root as the target of Delete
+		for _, p := range []string{"w=full/act", "w=full/act?depth=1", "w=full/nt", "w=full/act?fields=i"} {
+			reqs = append(reqs, c13req{Kind: "jfind2", A: p, Desc: "read of the selection of an action or notification"})
+		}
+		for _, p := range []string{"", "w=full/act", "w=full/nt"} {
+			reqs = append(reqs, c13req{Kind: "jdel", A: p, Desc: "Delete on the root / on an action selection"})
 		}
 		// GetValue of paths whose containers or entries are absent; Delete on selections of every kind of node
 		for _, p := range []string{"w=full/bi", "w=bare/c/y", "w=zz/k", "w=bare/c/l=1/n", "two=p,9/v", "c/in=1,true/k1", "nosuch/x", "w=half/c/cc/q", "w=full/c/l=2/n", "w=full/c/l=9/n", "w=full/an", "w=full/c2/z", "w=half/c2/z", "w", "w=full", "c"} {
